@@ -35,6 +35,24 @@ TOL = 1e-9
 PATHS = {"chi2_molecules": 0, "_chi2_molecules_with_restrains": 1, "_chi2_molecules_only_restrains": 2}
 
 
+def _impl_path(ctx, calc):
+    """which of the three code paths the calculator chose — read from PRIVATE state (`_meth_to_call`), so only when it
+    is there under that name: a refactor that renames it (benign change C08-1) takes this comparison away, not the
+    comparison of the values"""
+    try:
+        return PATHS[calc._meth_to_call.__name__]
+    except (AttributeError, KeyError):
+        ctx.count("private-state-not-compared:_meth_to_call")
+        return None
+
+
+def _private(ctx, calc, name):
+    v = getattr(calc, name, None)
+    if v is None:
+        ctx.count("private-state-not-compared:" + name)
+    return v
+
+
 # ----------------------------------------------------------------------------- generators
 
 def _coords(rng, n, cls, scale):
@@ -329,8 +347,8 @@ def _ask_call(ctx, case, what, fixed, mobile0, mobile, restr, res):
             ctx.disagree(case, what, res["value"], [status] + toks[:2])
             return
         path, val = int(toks[0]), unfbits(toks[1])
-        impl_path = PATHS[res["calc"]._meth_to_call.__name__]
-        if path != impl_path:
+        impl_path = _impl_path(ctx, res["calc"])
+        if impl_path is not None and path != impl_path:
             ctx.disagree(case, what + " path", impl_path, path)
         if not close(val, res["value"], TOL) and abs(val - res["value"]) > TOL * abs(res["value"]):
             ctx.disagree(case, what, res["value"], val)
@@ -354,8 +372,8 @@ def _ask_new(ctx, case, fixed, mobile0, restr, res):
             ctx.disagree(case, "__init__", "constructed", [status] + toks[:2])
             return
         path = int(toks[0])
-        impl_path = PATHS[calc._meth_to_call.__name__]
-        if path != impl_path:
+        impl_path = _impl_path(ctx, calc)
+        if impl_path is not None and path != impl_path:
             ctx.disagree(case, "__init__ path", impl_path, path)
             return
         it = iter(toks[1:])
@@ -372,15 +390,17 @@ def _ask_new(ctx, case, fixed, mobile0, restr, res):
                 ctx.disagree(case, "len_mol2", calc.len_mol2, len_mol2)
             if sset != sorted(int(x) for x in calc.set_restriction2):
                 ctx.disagree(case, "set_restriction2", sorted(int(x) for x in calc.set_restriction2), sset)
-            if not np.array_equal(np.array(nr).reshape(-1, 3), calc._mol1_not_restriction):
-                ctx.disagree(case, "_mol1_not_restriction", calc._mol1_not_restriction, nr)
-            if not np.array_equal(np.array(rs).reshape(-1, 3), calc._mol1_restriction):
-                ctx.disagree(case, "_mol1_restriction", calc._mol1_restriction, rs)
+            pnr, prs = _private(ctx, calc, "_mol1_not_restriction"), _private(ctx, calc, "_mol1_restriction")
+            if pnr is not None and not np.array_equal(np.array(nr).reshape(-1, 3), pnr):
+                ctx.disagree(case, "_mol1_not_restriction", pnr, nr)
+            if prs is not None and not np.array_equal(np.array(rs).reshape(-1, 3), prs):
+                ctx.disagree(case, "_mol1_restriction", prs, rs)
         elif path == 2:
             rs = rd_vlist()
             fact = unfbits(next(it))
-            if not np.array_equal(np.array(rs).reshape(-1, 3), calc._mol1_restriction):
-                ctx.disagree(case, "_mol1_restriction", calc._mol1_restriction, rs)
+            prs = _private(ctx, calc, "_mol1_restriction")
+            if prs is not None and not np.array_equal(np.array(rs).reshape(-1, 3), prs):
+                ctx.disagree(case, "_mol1_restriction", prs, rs)
             if abs(fact - calc.n_cg_far_fact) > TOL * abs(calc.n_cg_far_fact):
                 ctx.disagree(case, "n_cg_far_fact", calc.n_cg_far_fact, fact)
     ctx.model.ask("chi2_new", f"{vlist(fixed)} {vlist(mobile0)} {_restr_tokens(restr)}", cb, case)
